@@ -28,8 +28,8 @@ IgnoreErrorsOk == P01(Def, Obs, TRUE)
 RelationsHold == P03(Def, Obs)
 SourcesHonest == P06(Def, Obs)
 ActionsFold == P07(Def, Obs, Top)
-AttributionSound == IndexDistinct(Def, Obs) /\ (Obs.outcome = "Ok" => ValuesFromArgv(Def, argv, Obs))
-TailVerbatim == P05(Def, argv, Obs, Top)
+AttributionSound == IndexDistinct(Def, Obs) /\ (Obs.outcome = "Ok" => ValuesFromArgv(Def, EffArgv(Def, argv), Obs))
+TailVerbatim == P05(Def, EffArgv(Def, argv), Obs, Top)
 ChainAndGlobals == P09(Def, Obs, Top, Obs)
 Rejections == KindContract(Obs) /\ (Obs.outcome = "Err" => Justified(Def, Obs, Top))
 
